@@ -150,6 +150,9 @@ def apply_op(gfapy, gfa, op, version):
         gfa.add_line(op["text"])
     elif k == "load":
         return load_entry(gfapy, op, gfa)
+    elif k == "query":
+        from . import queries
+        return ("answers", queries.run(gfapy, gfa, op["id"]), queries.run(gfapy, gfa, op["id"]))
     elif k == "flush":
         gfa.process_line_queue()
     elif k == "rm":
@@ -205,14 +208,29 @@ def replay_one(job):
     init = project.observe(gfa, pool, universe)
     evs = []
     signal.signal(signal.SIGALRM, _alarm)
+    answers = {}
     for op in job["ops"]:
         res = "ok"
         exc = ""
+        qsame, qdiff = 1, []
         signal.setitimer(signal.ITIMER_REAL, 5.0)
         try:
             ng = apply_op(gfapy, gfa, op, ver or (gfa._version))
-            if ng is not None:
+            if isinstance(ng, tuple):
+                a1, a2 = ng[1], ng[2]
+                prev = answers.get(op["id"])
+                qsame = 1 if (a1 == a2 and (prev is None or prev == a1)) else 0
+                if not qsame:
+                    other = a2 if a1 != a2 else prev
+                    qdiff = [x for x, y in zip(a1, other) if x != y][:3] or ["length"]
+                answers[op["id"]] = a1
+                foreign = [x for x in a1 if "=!!" in x]
+                if foreign:
+                    res, exc = "FOREIGN", ";".join(foreign[:4])
+            elif ng is not None:
                 gfa = ng
+            if op["k"] != "query":
+                answers = {}
         except Timeout:
             res, exc = "FOREIGN", "timeout"
         except MachineryError:
@@ -228,7 +246,7 @@ def replay_one(job):
         ls = [pool.add(abstract_input(t)) for t in op.get("texts", [])]
         obs = project.observe(gfa, pool, universe)
         evs.append({"op": {"k": op["k"], "l": lidx, "id": op["id"], "id2": op["id2"], "ls": ls},
-                    "res": res, "exc": exc, "obs": obs})
+                    "res": res, "exc": exc, "obs": obs, "qsame": qsame, "qdiff": qdiff})
         if "broken" in obs:
             break
     return {"id": job["id"], "kind": job["kind"], "cfg": cfg, "init": init, "ev": evs,
@@ -440,7 +458,7 @@ def doc_jobs(catname, n, nmut, seed, vlevel=1, kind="doc", cfgversion=None):
 # clause -> property attribution (DESIGN 3.2)
 
 CLAUSE_PROP = {
-    "foreign": "C07", "stutter": "C08",
+    "foreign": "C07", "stutter": "C08", "query-changed": "C10", "query-unrepeatable": "C10",
     "res.notunique": "C09", "names": "C09", "lookup": "C09",
     "res.version": "C13", "version": "C13",
     "lines": "C05", "res.refused": "C05", "res.accepted": "C05", "hdr": "C05",
